@@ -7,10 +7,12 @@ from collections import namedtuple
 VERIF = os.path.dirname(os.path.dirname(os.path.abspath(__file__)))
 REPO = os.environ.get("PV_REPO", "/repo")      # PV_REPO: run the checks against a scratch copy of the repository
 COQ = os.path.join(VERIF, "coq")
-BUILD = os.path.join(VERIF, "build")
+# a run against a scratch copy of the repository (PV_REPO) works in its own build directory, so that it can run next to a
+# run against /repo without sharing case files, replays or cargo target directories
+BUILD = os.path.join(VERIF, "build") if REPO == "/repo" else os.path.join(VERIF, "build", "scratch-" + hashlib.sha1(REPO.encode()).hexdigest()[:10])
 HARNESS = os.path.join(VERIF, "harness")
 # evidence/ holds what the checks found on /repo itself; a run against a scratch copy (PV_REPO) writes elsewhere
-EVID = os.path.join(VERIF, "evidence") if REPO == "/repo" else os.path.join(BUILD, "evidence-scratch")
+EVID = os.path.join(VERIF, "evidence") if REPO == "/repo" else os.path.join(BUILD, "evidence")
 NPROC = 16
 
 F = namedtuple("F", "bits")          # an f64 by bit pattern
